@@ -206,7 +206,7 @@ def factory_info(IM, name):
     return pieces, root_pos, u
 
 
-def bdr_run(eng, IM, name, piece_idx, level, fail, concrete=None):
+def bdr_run(eng, IM, name, piece_idx, level, fail, concrete=None, window=None):
     pieces, root_pos, u = factory_info(IM, name)
     (p0, d, ln) = pieces[piece_idx]
     mesh = getattr(IM, name)()
@@ -221,6 +221,8 @@ def bdr_run(eng, IM, name, piece_idx, level, fail, concrete=None):
         k = z3.Int('k')
         q = eng.real('q')
         eng.assume(z3.And(q.z3() * (2**level) == z3.ToReal(k), k >= 0, k < 2**level))
+        if window:   # deep levels: k symbolic inside a window of adjacent segments (the descent is 2^level paths otherwise)
+            eng.assume(z3.And(k >= window[0], k < window[0] + window[1]))
         q0, q1 = q, q + Fraction(1, 2**level)
         orient = eng.choice(2)
         form = eng.choice(4)
@@ -349,12 +351,13 @@ def worker(case):
         res['functions'] = ['src/initial_mesh.py:InitialMesh.__init__', 'src/initial_mesh.py:InitialMesh.refine',
                             'src/initial_mesh.py:InitialMesh.bisect_edge', 'src/initial_mesh.py:Element.__init__']
     else:
-        _, name, piece_idx, level = case
+        _, name, piece_idx, level = case[:4]
+        window = case[4] if len(case) > 4 else None
         prefix = ()
 
         def body():
             cands.clear()
-            return bdr_run(eng, IM, name, piece_idx, level, fail)
+            return bdr_run(eng, IM, name, piece_idx, level, fail, window=window)
         res['functions'] = ['src/initial_mesh.py:InitialMesh.refine_msh_bdr',
                             'src/initial_mesh.py:InitialMesh.vertex_from_coords', 'src/initial_mesh.py:InitialMesh.refine']
     try:
@@ -382,8 +385,19 @@ def worker(case):
                     ch = list(pr.choices) + [0, 0]
                     rp = dict(kind='bdr', name=name, piece=piece_idx, level=level, k=int(kq), orient=ch[0], form=ch[1],
                               da=float(Fraction(vals.get('da', '0'))), db=float(Fraction(vals.get('db', '0'))))
+                ok_rp = replay(rp)
+                if not ok_rp and kind == 'bdr':
+                    # the path is feasible over the reals, but the doubles of THIS (level, k) need not lie on it: the
+                    # rounded midpoints of the mesh and the rounded k * L / 2^l of the caller agree for most k and
+                    # differ by an ulp for a few.  Look for a float witness of the same candidate among the other
+                    # segments of this and the next finer levels (replay only - the verdict was the solver's).
+                    for rp2 in witness_variants(rp):
+                        if replay(rp2):
+                            rp, ok_rp = rp2, True
+                            what += ' (float witness found at level %d, k = %d)' % (rp2['level'], rp2['k'])
+                            break
                 res['violations'].append(dict(signature='%s:%s' % (kind, sig), what='%s [%s]' % (what, rp), replay=rp,
-                                              reproduced=replay(rp)))
+                                              reproduced=ok_rp))
             cands.clear()
             if len(res['violations']) >= 2:
                 break
@@ -391,6 +405,21 @@ def worker(case):
         res['inconclusive'].append('%r: %s' % (case, e))
     res['stats'] = eng.stats
     return res
+
+
+def witness_variants(rp, max_level=8, cap=700):
+    n = 0
+    for lv in sorted({rp['level'], 5, 6, 7, max_level}):
+        if lv < rp['level'] or lv > 10:
+            continue
+        for k in range(2**lv):
+            for (da, db) in ((0.0, 0.0),) + (((rp.get('da', 0.0), rp.get('db', 0.0)),) if lv in PERTURBED_LEVELS else ()):
+                if (lv, k, da, db) == (rp['level'], rp['k'], rp.get('da', 0.0), rp.get('db', 0.0)):
+                    continue
+                n += 1
+                if n > cap:
+                    return
+                yield dict(rp, level=lv, k=k, da=da, db=db)
 
 
 def replay(rp):
@@ -447,12 +476,19 @@ def run(out):
         for pi in range(len(pieces)):
             for level in range(0, lmax + 1):
                 cases.append(('bdr', name, pi, level))
+    # the property goes to level 10: deep levels with k symbolic inside windows of two adjacent segments (both ends of
+    # the piece and an interior position), one piece per domain
+    deep = (8, 10) if quick else (7, 8, 9, 10)
+    for name, pi in (('UnitSquare', 0), ('PiSquare', 2), ('LShape', 1)):
+        for level in deep:
+            for k0 in (0, 2**level - 2, (2**level * 2) // 3):
+                cases.append(('bdr', name, pi, level, (k0, 2)))
     cases.sort(key=lambda c: -(c[3] if c[0] == 'bdr' else 10 * c[2]))
     results = report.pmap('checks.c16', 'worker', cases)
     for c, r in zip(cases, results):
         report.merge_worker(out, r, part='%s %s' % (c[0], c[1]))
     out.bounds = dict(history_depth=depth, shapes=list(SHAPES), unit='symbolic s > 0',
-                      boundary_level_max=lmax, k='symbolic integer in [0, 2^l)', orientations=2, input_forms=4,
+                      boundary_level_max=lmax, boundary_deep_levels=dict(levels=list(deep), windows='k symbolic in [k0, k0+2), k0 in {0, 2^l - 2, floor(2^(l+1)/3)}', pieces='one per domain'), k='symbolic integer in [0, 2^l)', orientations=2, input_forms=4,
                       end_point_perturbation='|delta| <= 1e-15 * unit on the running coordinate of each non-corner end point, at segment levels %r' % (PERTURBED_LEVELS, ))
     out.outside = ['refinement sequences longer than the stated depth', 'segment levels above the stated maximum '
                    '(the property goes to 10)', 'floating-point rounding of segment end points (reals)']
